@@ -135,8 +135,19 @@ def run(ctx: Any, prog: Program) -> None:
     ok = len(loops) == 1 and ast.unparse(loops[0].iter) == 'self.systems' and any(isinstance(n, ast.Return) for n in ast.walk(loops[0])) \
         and any(isinstance(h.body[0], ast.Continue) for t in ast.walk(loops[0]) if isinstance(t, ast.Try) for h in t.handlers)
     ctx.shape('C19.H4', ok, fs, gf, 'FileSystemChain._get_file must try self.systems in list order and return on the first member that has the file', func='FileSystemChain._get_file', text='first hit in list order')
-    ok = 'os.path.join(prefix, name)' in ast.unparse(gf)
-    ctx.shape('C19.H4', ok, fs, gf, 'the member prefix must be joined in front of the looked-up name', func='FileSystemChain._get_file', text='prefix joined on lookup')
+    # how the prefix is put in front of the name: os.path.join keeps exactly one separator whatever the spelling of the prefix ('addon',
+    # 'addon/'); gluing with a literal '/' doubles it for 'addon/', and the zip / VPK members look names up verbatim
+    joins = [c for c in ast.walk(gf) if isinstance(c, ast.Call) and dotted(c.func) == 'os.path.join' and [dotted(a) for a in c.args] == ['prefix', 'name']]
+    glued = [j for j in ast.walk(gf) if isinstance(j, ast.JoinedStr) and any(isinstance(v, ast.FormattedValue) and dotted(v.value) == 'prefix' for v in j.values)
+             and any(isinstance(v, ast.FormattedValue) and dotted(v.value) == 'name' for v in j.values)] + \
+            [b for b in ast.walk(gf) if isinstance(b, ast.BinOp) and isinstance(b.op, ast.Add) and 'prefix' in ast.unparse(b) and 'name' in ast.unparse(b) and "'/'" in ast.unparse(b)]
+    if joins:
+        ctx.check('C19.H4', True, fs, joins[0], 'os.path.join(prefix, name)', func='FileSystemChain._get_file', text='prefix joined on lookup')
+    elif glued:
+        ctx.check('C19.H4', False, fs, glued[0], f'FileSystemChain._get_file builds the member name as `{ast.unparse(glued[0])[:60]}`: a prefix spelled with a trailing separator gives `addon//cfg/x`, which the in-memory member tolerates '
+                  'but the zip and VPK members (verbatim key lookup) do not - the chain falls through to a lower-priority member while walk_folder (os.path.join) still lists the file', func='FileSystemChain._get_file', text='prefix joined on lookup')
+    else:
+        ctx.shape('C19.H4', False, fs, gf, 'the member prefix must be joined in front of the looked-up name', func='FileSystemChain._get_file', text='prefix joined on lookup')
     # every loop over the members, in any chain method: the name handed to a member is prefix + the caller's name, built afresh per member
     n_loops = 0
     for mname, mfn in ch.items():
@@ -183,8 +194,26 @@ def run(ctx: Any, prog: Program) -> None:
         ctx.shape('C19.H4', False, fs, ads, 'insert/append pair not recognised', func='FileSystemChain.add_sys', text='priority insertion')
     wr = ch['walk_folder_repeat']
     src = ast.unparse(wr)
-    ctx.shape('C19.H4', 'os.path.join(prefix, folder)' in src and 'os.path.relpath(file.path, prefix)' in src, fs, wr, 'walk must address a prefixed member inside its prefix and report names relative to it',
-              func='FileSystemChain.walk_folder_repeat', text='prefix joined and stripped on walk')
+    ctx.shape('C19.H4', 'os.path.join(prefix, folder)' in src, fs, wr, 'walk must address a prefixed member inside its prefix', func='FileSystemChain.walk_folder_repeat', text='prefix joined on walk')
+    # ... and report names relative to it.  The members match folder names case-insensitively, so the files found may spell the prefix
+    # differently from the chain: os.path.relpath() compares case-sensitively and then answers `../Materials/x` for prefix `materials`.
+    rels = [c for c in ast.walk(wr) if isinstance(c, ast.Call) and dotted(c.func) == 'os.path.relpath' and len(c.args) == 2 and dotted(c.args[1]) == 'prefix']
+    folded_strip = any(isinstance(c, ast.Compare) and ast.unparse(c).count('casefold()') >= 2 and 'prefix' in ast.unparse(c) for c in ast.walk(wr))
+    if not rels and not folded_strip:
+        ctx.shape('C19.H4', False, fs, wr, 'how walk_folder_repeat removes the member prefix from the names it reports was not recognised', func='FileSystemChain.walk_folder_repeat', text='prefix stripped on walk')
+    else:
+        def only_fallback(c: ast.AST) -> bool:
+            a = fs.parents.get(c)
+            ch_ = c
+            while a is not None and a is not wr:
+                if isinstance(a, ast.If) and any(ch_ is x or any(ch_ is y for y in ast.walk(x)) for x in a.orelse) and 'casefold()' in ast.unparse(a.test):
+                    return True
+                ch_, a = a, fs.parents.get(a)
+            return False
+        bad_rel = [c for c in rels if not (folded_strip and only_fallback(c))]
+        ctx.check('C19.H4', not bad_rel, fs, bad_rel[0] if bad_rel else wr, 'FileSystemChain.walk_folder_repeat strips the member prefix with os.path.relpath(), which compares case-sensitively: a member that stores `Materials/dev/a.vmt` '
+                  'under the chain prefix `materials` is reported as `../Materials/dev/a.vmt` instead of `dev/a.vmt` (and is not de-duplicated against the same name from another member)', func='FileSystemChain.walk_folder_repeat',
+                  text='prefix stripped case-insensitively on walk')
     ctx.shape('C19.H4', 'for sys, prefix in self.systems' in src, fs, wr, 'walk must visit members in priority order', func='FileSystemChain.walk_folder_repeat', text='walk in list order')
     wf = ch['walk_folder']
     src = ast.unparse(wf)
@@ -216,6 +245,8 @@ def run(ctx: Any, prog: Program) -> None:
 
 
 MUTANTS = [
+    {'id': 'chain_walk_strips_prefix_with_relpath', 'file': 'filesys.py', 'find': "                if norm_prefix and start.casefold() == norm_prefix.casefold() + '/':\n                    rel_path = path[len(start):]\n                else:\n                    rel_path = os.path.relpath(path, prefix).replace('\\\\', '/')\n", 'replace': "                rel_path = os.path.relpath(path, prefix).replace('\\\\', '/')\n", 'expect': 'C19.H4'},
+    {'id': 'chain_prefix_glued_with_slash', 'file': 'filesys.py', 'find': "            full_name = os.path.join(prefix, name).replace('\\\\', '/')", 'replace': "            full_name = (f'{prefix}/{name}' if prefix else name).replace('\\\\', '/')", 'expect': 'C19.H4'},
     {'id': 'chain_exists_carries_prefix', 'file': 'filesys.py', 'find': "    def _get_file(self, name: str) -> File[Self]:\n        \"\"\"Search for a file on each filesystem in turn.\"\"\"", 'replace': "    def _file_exists(self, name: str) -> bool:\n        for sys, prefix in self.systems:\n            if prefix:\n                name = os.path.join(prefix, name).replace('\\\\', '/')\n            if sys._file_exists(name):\n                return True\n        return False\n\n    def _get_file(self, name: str) -> File[Self]:\n        \"\"\"Search for a file on each filesystem in turn.\"\"\"", 'expect': 'C19.H4'},
     {'id': 'chain_exists_fresh_name', 'file': 'filesys.py', 'find': "    def _get_file(self, name: str) -> File[Self]:\n        \"\"\"Search for a file on each filesystem in turn.\"\"\"", 'replace': "    def _file_exists(self, name: str) -> bool:\n        for sys, prefix in self.systems:\n            full = os.path.join(prefix, name).replace('\\\\', '/')\n            if sys._file_exists(full):\n                return True\n        return False\n\n    def _get_file(self, name: str) -> File[Self]:\n        \"\"\"Search for a file on each filesystem in turn.\"\"\"", 'expect': None},
     {'id': 'chain_lookup_without_prefix', 'file': 'filesys.py', 'find': "                file_info = sys._get_file(full_name)", 'replace': "                file_info = sys._get_file(name)", 'expect': 'C19.H4'},
